@@ -150,6 +150,8 @@ GUARDS = [
     "all(v < 0 and PO.hit for v in xs) or pr(1, False)",
     "all(0 < v < PD['k'] for v in xs) and pr(1, False)",
     "all(v > 0 or PD['k'] for v in xs) and pr(1, False)",
+    "xs and all(v > 0 or (PB and b) for v in xs) and pr(1, False)",    # the truth test of a plain name is user code (__bool__) as well
+    "(not xs or all(v < 0 and (PB or b) for v in xs)) or pr(1, False)",
     "xs and all(PO.hit > v for v in xs) and pr(1, False)",   # (over an empty iterable nothing is evaluated at all; not a short-circuit)
     # a defaulted parameter of the condition itself (kd=0) in front of the guard
     "pr(0, kd < 1) and pr(1, x != 0) and pr(2, 10 // x > 100)",
@@ -164,7 +166,8 @@ GUARDS = [
 PROBE_OBJECTS_SRC = (
     "class _PO:\n    @property\n    def hit(self):\n        return pr(8, 100)\n    def __repr__(self):\n        return 'PO'\n"
     "class _PD:\n    def __getitem__(self, key):\n        return pr(9, 100)\n    def __repr__(self):\n        return 'PD'\n"
-    "PO = _PO()\nPD = _PD()\n")
+    "class _PB:\n    def __bool__(self):\n        return pr(7, True)\n    def __repr__(self):\n        return 'PB'\n"
+    "PO = _PO()\nPD = _PD()\nPB = _PB()\n")
 
 
 def guard_valuations():
